@@ -129,6 +129,13 @@ def norm(node):
     return NormStr(text, _root_of(node) if isinstance(node, ast.AST) else None)
 
 
+def norm_block(stmts, sep="\n"):
+    """normalised text of a statement list (keeps the link to the enclosing function for anchor recording)"""
+    stmts = list(stmts)
+    text = sep.join(str(norm(x)) for x in stmts)
+    return NormStr(text, _root_of(stmts[0]) if stmts else None)
+
+
 def stmt_of(node):
     """Enclosing statement of an expression node."""
     n = node
